@@ -64,6 +64,7 @@ func rwRun(t *testing.T, c rwCase, opt rwOptions) (res rwResult) {
 		checked := map[int]int{}
 		after := func() {
 			vfQuiesce()
+			w.syncNodes()
 			w.observe()
 			res.Unconfirmed = append(res.Unconfirmed, w.checkAcks(checked)...)
 			rwClassify(w, &res)
@@ -284,6 +285,25 @@ func rwClassify(w *rwWorld, res *rwResult) {
 	for k := range w.classes {
 		res.Classes[k] = 1
 	}
+	if len(w.nodes) > 1 {
+		res.Classes["several_proxy_instances"] = 1
+		for _, s := range w.sources {
+			for _, r := range s.allTasks {
+				for _, d := range r.deliveries {
+					if w.smFor("S", s.idx) != w.smFor("T", d.target) {
+						res.Classes["task_forwarded_between_instances"] = 1
+						if d.confirmed {
+							for _, a := range s.acks {
+								if a.low > r.id {
+									res.Classes["ack_for_a_forwarded_task_returned_across_instances"] = 1
+								}
+							}
+						}
+					}
+				}
+			}
+		}
+	}
 	for _, s := range w.sources {
 		for _, r := range s.allTasks {
 			if r.inClosedWindow {
@@ -317,7 +337,7 @@ func rwClassify(w *rwWorld, res *rwResult) {
 	}
 	for _, t := range w.targets {
 		if inc := w.liveT(t.idx); inc != nil {
-			if ch, ok := w.sm.GetRemoteSendChan(rwTargetShard(t.idx)); ok && len(ch) >= cap(ch) {
+			if ch, ok := w.smFor("T", t.idx).GetRemoteSendChan(rwTargetShard(t.idx)); ok && len(ch) >= cap(ch) {
 				res.Classes["target_queue_full"] = 1
 			}
 		}
@@ -486,6 +506,17 @@ func rwGenCase(t *rapid.T, faults bool) rwCase {
 	c := rwCase{NS: rapid.IntRange(1, vfshared.Scale(4, 6)).Draw(t, "ns"), NT: rapid.IntRange(1, vfshared.Scale(4, 6)).Draw(t, "nt")}
 	if rapid.IntRange(0, 3).Draw(t, "late") == 0 {
 		c.LateTargets = []int{rapid.IntRange(0, c.NT-1).Draw(t, "lateT")}
+	}
+	// one case in four: several proxy instances share the streams (no stream failures in those: C04's fault model is
+	// about the cluster-facing streams of one instance)
+	if !faults && rapid.IntRange(0, 3).Draw(t, "multiNode") == 0 {
+		c.Nodes = rapid.SampledFrom([]int{2, 2, 3}).Draw(t, "nodes")
+		for i := 0; i < c.NS; i++ {
+			c.SrcNode = append(c.SrcNode, rapid.IntRange(0, c.Nodes-1).Draw(t, "srcNode"))
+		}
+		for j := 0; j < c.NT; j++ {
+			c.TgtNode = append(c.TgtNode, rapid.IntRange(0, c.Nodes-1).Draw(t, "tgtNode"))
+		}
 	}
 	silent := -1
 	if rapid.IntRange(0, 3).Draw(t, "silentCase") == 0 {
